@@ -68,6 +68,27 @@ Unspec4 == [ns |-> "unspecified", t |-> "unspecified", cns |-> "unspecified", ct
 
 
 (***************************************************************************)
+(* Messages rendered THROUGH A TRANSLATION.  A message here is a sequence  *)
+(* of prints (chains) of the same expression, kept apart by marker texts.  *)
+(* Without a bundle each print node is walked in place.  With a bundle the *)
+(* translated text names placeholders; a name is resolved to the FIRST     *)
+(* placeholder node that carries it.  Two placeholders carry the same name *)
+(* only if they are the same print COMMAND (expression and directives), so *)
+(* whichever order and however often the translation uses a name, the      *)
+(* bytes written for it are those of the print it stands for.              *)
+(***************************************************************************)
+SamePrint(msg, i, j) ==
+  IF "placeholder_name_ignores_directives" \in DirDev THEN TRUE      \* same expression is enough
+  ELSE ChainText(msg[i], 1) = ChainText(msg[j], 1)
+\* the node a translation's placeholder for print i resolves to
+ResolvedNode(msg, i) == CHOOSE j \in 1..i : SamePrint(msg, i, j) /\ \A k \in 1..(j - 1) : ~SamePrint(msg, i, k)
+MsgSegment(on, msg, v, i, bundle) ==
+  PrintText(on, msg[IF bundle THEN ResolvedNode(msg, i) ELSE i], v)
+MsgSafe(on, msg, v) ==
+  \A i \in DOMAIN msg : \A bundle \in BOOLEAN :
+    Determinate(msg[i], v) => ChainSafe(on, msg[i], v, MsgSegment(on, msg, v, i, bundle))
+
+(***************************************************************************)
 (* Verdict on an OBSERVED output (M3): independent of the expected text    *)
 (* wherever escaping is on.                                                *)
 (*   r = [site, ns, t, cns, ct, chain, v, err, out, off, y]                *)
